@@ -62,6 +62,7 @@ func run(c *core.Ctx) {
 		raws = append(raws, walks...)
 	}
 	wg.Wait()
+	nMain := len(raws)
 	raws = append(raws, deep...)
 	scs := sessreal.ParseAll(c, raws)
 	wg.Wait()
@@ -115,6 +116,9 @@ func run(c *core.Ctx) {
 		// global cache (where storeSession files them), the server configured with its
 		// own SessionCache (resumption goes through the global fallback) or with none
 		for k, pl := range []string{"fallback", "global"} {
+			if si >= nMain && !c.Thorough() {
+				break // the one-session deep life cycles run with the server's own cache only
+			}
 			r := reqs[(si+k)%len(reqs)]
 			if c.Thorough() {
 				for _, r := range reqs {
